@@ -94,6 +94,7 @@ type runner struct {
 	solo    []int // consecutive steps of this thread
 	stuck   []bool
 	addsIn  int
+	sum     int // sum of the deltas of all Add calls made so far
 	pre     int
 }
 
@@ -183,6 +184,7 @@ func (r *runner) stepThread(t int) {
 			r.inSteps[t] = 0
 			if c.K == "add" {
 				r.addsIn++
+				r.sum += c.D
 				if c.D < 0 {
 					r.lb += c.D
 				}
@@ -230,11 +232,27 @@ func (r *runner) stepThread(t int) {
 	r.sched = append(r.sched, t)
 }
 
-// probeTimeout calls the real WaitTimeout(5ms) under a watchdog.
+// probeTimeout calls the real WaitTimeout(5ms) under a watchdog.  When the sum of deltas is 0
+// the expected answer is nil; Go's select may still pick the timer case if this goroutine was
+// descheduled for more than 5ms between NewTimer and select (loaded machine), so a timeout
+// answer is re-tried up to three times in that situation: a wait group that really hands out an
+// open channel at count 0 times out every time.
 func (r *runner) probeTimeout() int {
 	if r.addsIn != 0 {
 		return 3
 	}
+	attempts := 1
+	if r.sum == 0 {
+		attempts = 4
+	}
+	v := 1
+	for i := 0; i < attempts && v == 1; i++ {
+		v = r.probeOnce()
+	}
+	return v
+}
+
+func (r *runner) probeOnce() int {
 	done := make(chan int, 1)
 	r.s.ProbeAbort.Store(false)
 	go func() {
